@@ -181,7 +181,37 @@ type nlpView struct {
 
 func nlpAnalyse(p *nlp.QueryProcessor, q string) nlpView {
 	pq := p.ProcessQuery(q)
-	return nlpView{pq.Cleaned, pq.Actions, pq.Targets, pq.Keywords, string(pq.Intent), pq.GetEnhancedKeywords()}
+	cp := func(xs []string) []string {
+		if xs == nil {
+			return nil
+		}
+		return append([]string{}, xs...)
+	}
+	// the analysis as it is BEFORE it is expanded (copies: the expansion must not write into it)
+	return nlpView{pq.Cleaned, cp(pq.Actions), cp(pq.Targets), cp(pq.Keywords), string(pq.Intent), pq.GetEnhancedKeywords()}
+}
+
+// nlpExpansionStable: expanding an analysis is a pure function of it - the analysis is unchanged afterwards and a second
+// expansion gives the same list (an append into a sub-slice of one of its lists would overwrite the analysis in place)
+func nlpExpansionStable(mon *Mon, q string) {
+	pq := nlp.NewQueryProcessor().ProcessQuery(q)
+	a0, t0, k0 := append([]string{}, pq.Actions...), append([]string{}, pq.Targets...), append([]string{}, pq.Keywords...)
+	e1 := append([]string{}, pq.GetEnhancedKeywords()...)
+	same := func(x, y []string) bool { return len(x) == len(y) && (len(x) == 0 || reflect.DeepEqual(x, y)) }
+	if !same(a0, pq.Actions) || !same(t0, pq.Targets) || !same(k0, pq.Keywords) {
+		mon.Hit("C06", "analysis-not-deterministic", map[string]interface{}{"query": q, "what": "GetEnhancedKeywords changed the analysis it was called on",
+			"actions_before": a0, "actions_after": pq.Actions, "targets_before": t0, "targets_after": pq.Targets})
+		return
+	}
+	for i := 0; i < 2; i++ {
+		if e2 := pq.GetEnhancedKeywords(); !same(e1, e2) {
+			mon.Hit("C06", "analysis-not-deterministic", map[string]interface{}{"query": q, "what": "a second expansion of the same analysis differs", "first": e1, "again": e2})
+			return
+		}
+	}
+	if len(a0) > 3 {
+		mon.Tag("nlp-more-than-three-actions")
+	}
 }
 
 // monitorAnalysis evaluates the analysis clauses of C06 on the real code for one query text.
@@ -214,6 +244,7 @@ func monitorAnalysis(mon *Mon, q string) nlpView {
 			mon.Hit("C06", "keyword-not-from-text", det(k))
 		}
 	}
+	nlpExpansionStable(mon, q)
 	// the same text analysed again: same processor, and fresh processors (fresh maps, fresh iteration seeds)
 	for i := 0; i < 3; i++ {
 		pp := p
